@@ -206,6 +206,11 @@ def build(run):
             ("rule.Consequent.modify[residual]", lambda r: verify_modify(r, residual=True), None),
             ("rule.Rule.trigger", verify_trigger, {"module": W_N, "func": "replay_trigger", "kwargs": {}, "vars": {}}),
             ("term.Activated.__init__", verify_activated, {"module": W_N, "func": "replay_activated", "kwargs": {}, "vars": {}})]
+    # "that conclusion's own hedges": Consequent.load reads each conclusion from its own tokens, hedges in text order (driver shared with C16); Consequent.modify
+    # applies them from the one nearest the term outwards (above)
+    from props import C16
+    rp_mod = {"module": W_N, "func": "replay_modify", "kwargs": {"exclude_known": True}, "vars": {}}
+    plan.append(("rule.Consequent.load", lambda r: C16.verify_consequent_load(r, RP=rp_mod), rp_mod))
     for fq, f, rp in plan:
         try:
             f(run)
@@ -215,6 +220,10 @@ def build(run):
         except NotFound as ex_:
             run.add(static(f"{fq}/exists", False, f"function under contract not found: {ex_}", fn=fq))
             continue
+    run.bounded("rule.Consequent.load+modify/templates.runtime", W_N, "replay_modify", [dict(exclude_known=True, limit=4000 if run.tier == "quick" else 100000)],
+                bound="consequents of 1-3 conclusions over 3 output variables x hedge chains (none, very, not, somewhat very, not very) x enabled flags x degrees "
+                      "(0.5, 0.25, 1, 0, NaN, +-inf): loaded by the real parser, every conclusion contributes its own hedged degree (hedges from the term outwards); "
+                      "the region of known finding C07-1 excluded")
     for f in ():
         try:
             f(run)
